@@ -251,8 +251,13 @@ JudgePost(f, t) ==
 (* Derived fields of a whole font and the font's metric queries.           *)
 
 \* xAvgCharWidth: arithmetic average of the advance widths of all glyphs of non-zero width
-\* (rounding is not fixed: anything strictly within one unit).  wlo/whi = floor/ceil of the
-\* advance widths.
+\* (rounding of the average is not fixed: anything strictly within one unit).  wlo/whi = lower
+\* and upper bounds of the advance widths; for a written file both are the integers of its hmtx.
+\* Float widths of a font value (CFF): hmtx holds integers, the library truncates (write.go
+\* makeHmtx and makeOS2 alike); the property fixes no rounding mode, so floor or ceil is accepted
+\* in hmtx - but advanceWidthMax, the side bearing aggregates and xAvgCharWidth are all judged
+\* against the hmtx words of the same file, and a second write/read cycle must not change them.
+\* Advance widths are unsigned in the file format: negative widths are outside the domain.
 AvgOK(avg, wlo, whi) ==
   LET n   == Len(whi)
       cnt == SeqSum([i \in 1..n |-> IF whi[i] > 0 THEN 1 ELSE 0])
